@@ -72,7 +72,12 @@ type MapDataProvider[T any] struct {
 }
 
 func (m *MapDataProvider[T]) Get(key string) any {
-	return any(m.M[key])
+	v, ok := m.M[key]
+	if !ok {
+		// a missing key is absent, also in a map whose values are not interfaces
+		return nil
+	}
+	return any(v)
 }
 
 // returns value + key used
